@@ -748,6 +748,7 @@ func (m *Machine) InitAll(pkg *ssa.Package) {
 	m.events = nil
 	m.sideMutex = map[*Value]*mutexState{}
 	m.sideWG = map[*Value]*wgState{}
+	m.sideSyncMap = map[*Value]*Map{}
 	m.sideCond = map[*Value]*condState{}
 	m.onceRun = map[*Value]bool{}
 	m.reached = map[string]bool{}
